@@ -141,10 +141,44 @@ func (r errorReporter) internalError(n ast.Node, cause interface{}) *ConversionE
 		Category:    "impossible(go)",
 		Message:     fmt.Sprintf("internal error: %v", cause),
 		GoCode:      what,
-		GooseCaller: "<recovered panic>",
+		GooseCaller: panicSite(),
 		GoSrcFile:   r.fset.Position(n.Pos()).String(),
 		Pos:         n.Pos(),
 		End:         n.End(),
+	}
+}
+
+// panicSite is file:line of the innermost goose function on the stack of the
+// panic being recovered (to be called from the deferred recovering function).
+func panicSite() string {
+	pcs := make([]uintptr, 64)
+	n := runtime.Callers(2, pcs)
+	frames := runtime.CallersFrames(pcs[:n])
+	for {
+		f, more := frames.Next()
+		if strings.HasPrefix(f.Function, "github.com/goose-lang/goose") &&
+			!strings.Contains(f.Function, "declsOrError") &&
+			!strings.Contains(f.Function, "internalError") &&
+			!strings.Contains(f.Function, "panicSite") {
+			return fmt.Sprintf("%s:%d", f.File, f.Line)
+		}
+		if !more {
+			return "<no goose frame>"
+		}
+	}
+}
+
+// packageError is a conversion error about the package as a whole, located at
+// its package clause.
+func (r errorReporter) packageError(f *ast.File, msg string) *ConversionError {
+	return &ConversionError{
+		Category:    "unsupported",
+		Message:     msg,
+		GoCode:      "package " + f.Name.Name,
+		GooseCaller: getCaller(1),
+		GoSrcFile:   r.fset.Position(f.Name.Pos()).String(),
+		Pos:         f.Name.Pos(),
+		End:         f.Name.End(),
 	}
 }
 
